@@ -153,7 +153,7 @@ fn base_tok(b: &Base, out: &mut Vec<String>) {
         Base::Int64(x) => ("x", (*x as u64).to_string()),
         Base::Uint64(x) => ("t", x.to_string()),
         Base::Double(x) => ("d", x.to_string()),
-        Base::UnixFd(fd) => ("h", if fd.get_raw_fd().is_some() { "0" } else { "1" }.to_string()),
+        Base::UnixFd(fd) => ("h", rbverif::wirelib::fd_token(fd)),
         Base::String(s) => ("s", hex(s.as_bytes())),
         Base::ObjectPath(s) => ("o", hex(s.as_bytes())),
         Base::Signature(s) => ("g", hex(s.as_bytes())),
@@ -244,13 +244,22 @@ fn eval(line: &str) -> String {
                 format!("ok {}", offset - start)
             } else {
                 let fds: Vec<UnixFd> = (0..nfds).map(|_| UnixFd::new(nix::unistd::dup(2).unwrap())).collect();
+                rbverif::wirelib::set_fd_table(&fds);
                 let mut ctx = UnmarshalContext::new(&fds, byteorder, &bytes, offset);
                 let mut out = Vec::new();
+                let mut failed = false;
                 for t in &types {
                     match rustbus::wire::unmarshal::container::unmarshal_with_sig(t, &mut ctx) {
                         Ok(p) => param_tok(&p, &mut out, true),
-                        Err(_) => return "err".to_string(),
+                        Err(_) => {
+                            failed = true;
+                            break;
+                        }
                     }
+                }
+                rbverif::wirelib::set_fd_table(&[]);
+                if failed {
+                    return "err".to_string();
                 }
                 format!("ok {} {}", bytes.len() - ctx.remainder().len() - start, out.join(" "))
             }
